@@ -4,6 +4,8 @@ import (
 	"sync"
 
 	srt "github.com/datarhei/gosrt"
+
+	"github.com/bluenviron/mediamtx/internal/logger"
 )
 
 type listener struct {
@@ -25,11 +27,32 @@ func (l *listener) run() {
 	l.parent.acceptError(err)
 }
 
+// accept waits for the next connection request.
+// The SRT library parses handshake packets inside Accept2() and panics
+// on some malformed ones (for instance, a truncated extension block).
+// These packets come from unauthenticated peers, therefore they must be
+// discarded without terminating the server.
+func (l *listener) accept() (req srt.ConnRequest, err error) {
+	defer func() {
+		if r := recover(); r != nil {
+			l.parent.Log(logger.Warn, "discarded invalid handshake packet: %v", r)
+			req = nil
+			err = nil
+		}
+	}()
+
+	return l.ln.Accept2()
+}
+
 func (l *listener) runInner() error {
 	for {
-		req, err := l.ln.Accept2()
+		req, err := l.accept()
 		if err != nil {
 			return err
+		}
+
+		if req == nil {
+			continue
 		}
 
 		l.parent.newConnRequest(req)
